@@ -158,7 +158,7 @@ void h_got_sigchld(void)
 		if (v_dead(g_exp[i]))
 			dead_seen = 1;
 	__CPROVER_assert(IMPLIES(dead_seen, !g_in_tree && (v_I.flags & IV_WAIT_STATUS_DEAD)), "[C11,C19] a terminated child's interest leaves the pid set at reap time and is flagged dead");
-	__CPROVER_assert(IMPLIES(!dead_seen, g_in_tree == verif_in.in_tree && v_I.flags == (verif_in.dead ? IV_WAIT_STATUS_DEAD : 0)), "[C11] otherwise the pid set and the flag are untouched");
+	__CPROVER_assert(IMPLIES(!dead_seen, g_in_tree == verif_in.in_tree && v_I.flags == (verif_in.dead ? IV_WAIT_STATUS_DEAD : 0)), "[C11,C19] otherwise (stop and continue reports, strangers) the pid set and the flag are untouched: only a terminating status marks the interest dead, so a later kill request still reaches a child that merely stopped");
 	__CPROVER_assert(IMPLIES(g_exp_n > 0 && dead_seen, v_dead(g_exp[g_exp_n - 1])), "[C11] the terminating status is the last one delivered");
 	CANARY();
 }
